@@ -105,6 +105,13 @@ fn event_of(e: u8) -> AnnounceEvent {
 }
 
 fn run_history(h: &History, shape: &mut Shape) -> Result<u64, Fail> {
+    match catch_unwind(AssertUnwindSafe(|| run_history_inner(h, shape))) {
+        Ok(r) => r,
+        Err(p) => Err(Fail { op_index: h.ops.len().saturating_sub(1), clause: "panic", signature: format!("http.swarm.panic:{}", panic_text(&*p)), detail: format!("the tracker code panicked during this history: {}", panic_text(&*p)) }),
+    }
+}
+
+fn run_history_inner(h: &History, shape: &mut Shape) -> Result<u64, Fail> {
     let mut config = Config::default();
     config.protocol.max_peers = h.max_peers;
     config.protocol.max_scrape_torrents = h.max_scrape_torrents;
@@ -495,6 +502,9 @@ fn gen_sweep(index: u64) -> Option<History> {
 }
 
 fn relevant(property: &str, clause: &str) -> bool {
+    if clause == "panic" {
+        return true;
+    }
     match property {
         "C07" => matches!(clause, "counts" | "handout" | "family" | "scrape" | "panic" | "peerlist" | "torrent_count"),
         "C02" => matches!(clause, "peerlist"),
